@@ -219,9 +219,24 @@ def main():
     lines = []
     known_hit = []
     os.makedirs(os.path.join(ROOT, 'replays', pid), exist_ok=True)
+    # a function whose contract no longer binds to the code (names used by its invariants disappeared, construct outside
+    # the subset after an edit): every obligation of that function is gone; reported as a violation if they passed before
+    err_fns = set()
+    for o in engine_errors:
+        short = o['target']
+        had = [b for b in base if ('/' + short + '/') in b]
+        if had:
+            err_fns.add(short)
+            violations.append({'stable': '%s/%s/contract-binding' % (pid, short), 'status': 'undecidable', 'fn': short,
+                               'reason': 'contract no longer applies to the code: ' + (o['error'] or '')[:300],
+                               'where': '', 'model': None, 'probes': {}, 'mode': o['mode']})
+    if err_fns and all(o['target'] in err_fns for o in engine_errors):
+        engine_errors = []
     # obligations of the baseline that are no longer generated
     if base and not engine_errors:
         for s in sorted(base - set(by_stable)):
+            if any(('/' + fnn + '/') in s for fnn in err_fns):
+                continue
             violations.append({'stable': s, 'status': 'missing', 'fn': s.split('/')[1] if '/' in s else '',
                                'reason': 'obligation of the committed baseline is no longer generated (contract clause or function binding lost)',
                                'where': '', 'model': None, 'probes': {}})
